@@ -4,6 +4,7 @@
 package main
 
 import (
+	"com.tuntun.rangers/node/src/common"
 	"encoding/json"
 	"flag"
 	"fmt"
@@ -23,6 +24,7 @@ func main() {
 	scratch := flag.String("scratch", "", "")
 	salt := flag.Int64("salt", 0, "")
 	scripted := flag.Bool("scripted", false, "fixed histories: contract-controlled miners, partial refunds")
+	p026 := flag.Bool("p026", false, "run with the fork rules of Proposal026 active")
 	flag.Parse()
 	if *scratch == "" {
 		vutil.Fatalf("--scratch required")
@@ -34,6 +36,11 @@ func main() {
 	}
 	ledgerops.Rt = ledgerops.BuildRuntime()
 	execdrv.Boot(*scratch)
+	if *p026 {
+		// the fork rules of Proposal026 (fee 0.001, gas x 30) for everything executed from here on
+		// (the dev genesis itself can only be created without them)
+		common.LocalChainConfig.Proposal026Block = 0
+	}
 	tr := vutil.NewTrace(outAbs)
 	tr.AutoFlush = os.Getenv("C06_FLUSH") != ""
 	nh, blocks := 0, 0
@@ -81,6 +88,15 @@ func main() {
 				{Op: "AuthCall", A: 3, B: 3, V: v % 3}, {Op: "AuthCall", A: 1, B: 3, V: 3 + v%3}, {Op: "AuthCall", A: 2, B: 3, V: 3 + (v+1)%3}},
 				func(o ledgerops.AbsOp) (string, string) { return []string{"0", "0.25"}[v/3], "" })
 		}
+		for v := 0; v < 4; v++ {
+			run([]ledgerops.AbsOp{{Op: "Deploy", A: 2, B: 3, V: 1}, {Op: "Deploy", A: 3, B: 1, V: 0}, {Op: "ResuicideRevert", A: 1, B: 3, V: v % 2},
+				{Op: "Deploy", A: 2, B: 3, V: 2}, {Op: "ResuicideRevert", A: 1, B: 3, V: (v + 1) % 2}},
+				func(o ledgerops.AbsOp) (string, string) { return []string{"0.25", "3"}[v/2], "" })
+		}
+		for v := 0; v < 6; v++ {
+			run([]ledgerops.AbsOp{{Op: "PoorFee", A: 1, B: 2, V: v}, {Op: "PoorFee", A: 2, B: 3, V: (v + 3) % 6}},
+				func(o ledgerops.AbsOp) (string, string) { return "0", "" })
+		}
 		for v := 0; v < 9; v++ {
 			run([]ledgerops.AbsOp{{Op: "Stake", A: 1, V: v % 3}, {Op: "Stake", A: 2, V: 2}, {Op: "Refund", A: 1, V: v % 3}, {Op: "Refund", A: 2, V: (v / 3) % 3},
 				{Op: "Refund", A: 1, V: (v + 1) % 3}, {Op: "Refund", A: 1, V: 0}, {Op: "Refund", A: 2, V: 0}, {Op: "Refund", A: 2, V: 1}},
@@ -88,7 +104,7 @@ func main() {
 		}
 	}
 	rng := vutil.Rng(6 + 1000**salt)
-	kinds := []string{"Transfer", "Transfer", "Transfer", "Deploy", "EthForward", "EthStale", "SelfDestruct2", "StaleGas", "CallForward", "CallRevert", "SelfDestruct", "CallCreate", "Stake", "Refund", "Mature", "CallExplicit", "CallExplicit", "SelfDestructFunded", "ConStake", "ConStake", "ConUnstake", "ConUnstake", "ConAddStake", "ConUnstakeAll", "Refund", "AuthCall", "AuthCall"}
+	kinds := []string{"Transfer", "Transfer", "Transfer", "Deploy", "EthForward", "EthStale", "SelfDestruct2", "StaleGas", "CallForward", "CallRevert", "SelfDestruct", "CallCreate", "Stake", "Refund", "Mature", "CallExplicit", "CallExplicit", "SelfDestructFunded", "ConStake", "ConStake", "ConUnstake", "ConUnstake", "ConAddStake", "ConUnstakeAll", "Refund", "AuthCall", "AuthCall", "PoorFee", "PoorFee", "ResuicideRevert"}
 	for i := 0; i < *nRandom; i++ {
 		ops := make([]ledgerops.AbsOp, 0, *length)
 		for j := 0; j < *length; j++ {
@@ -96,7 +112,7 @@ func main() {
 			if o.Op == "CallExplicit" {
 				o.V = rng.Intn(54)
 			}
-			if o.Op == "AuthCall" {
+			if o.Op == "AuthCall" || o.Op == "PoorFee" {
 				o.V = rng.Intn(6)
 			}
 			if o.Op == "ConUnstake" || o.Op == "ConAddStake" {
